@@ -120,8 +120,8 @@ Ltac rw_test := idtac; match goal with G : good (ev_test m1 ev1 _ _ _) |- _ => r
 Lemma ev_cond_sim : forall cls st sc, good (ev_cond m1 ev1 st sc cls) -> ev_cond m2 ev2 st sc cls = ev_cond m1 ev1 st sc cls.
 Proof.
   induction cls as [|[c body] cls IH]; intros st sc H; simpl in *; [reflexivity|].
-  step noop. try (step noop).
-  dif.
+  step noop. unfold truthy in *; simpl in *.
+  match goal with |- context[if ?b then _ else _] => destruct b end.
   - destruct body.
     + reflexivity.
     + apply ev_seq_sim; assumption.
@@ -257,11 +257,7 @@ Proof.
   - reflexivity.
   - intros v; destruct m; simpl; try reflexivity; destruct (is_values v) eqn:Hv; try congruence.
     destruct v; try discriminate; reflexivity.
-  - intros v; destruct m; simpl; try reflexivity.
-    + destruct (is_values v && is_nil (primary v)); congruence.
-    + destruct (is_values v) eqn:Hv; simpl.
-      * destruct (is_nil (primary v)) eqn:Hp; [congruence|]. intros _. destruct v; try discriminate. reflexivity.
-      * intros _. destruct v; try discriminate; reflexivity.
+  - reflexivity.
   - reflexivity.
   - destruct m; simpl; congruence.
   - intros fs sc x; destruct m; simpl; try reflexivity.
